@@ -1,10 +1,193 @@
 /-
-Helper lemmas for C02 about the external location scheme (Model/Precedence.genLocs) and NGINX's location
-selection (Model/NginxEval.selectLoc).
+Helper lemmas for C02 about the external location scheme (Model/Precedence.genLocs, mirroring
+`createLocations`/`initializeExternalLocations`) and NGINX's location selection (Model/NginxEval.selectLoc).
 -/
 import NGF.Model.Precedence
 import NGF.Proofs.NginxEval
 
 namespace NGF.Locations
+open NGF.Precedence NGF.NginxEval
+
+/-- a generated location as NGINX sees it (every generated external location of a routing rule proxies or hands
+over to njs; `passes := true` is the case in which the auto-redirect can fire) -/
+def toLoc (g : GenLoc) : Loc := { exact := g.exact, path := g.path, passes := true }
+
+def locsOf (rules : List PathRule) : List Loc := (genLocs rules).map toLoc
+
+theorem mem_extLocsFrom {rules : List PathRule} : ∀ {rs : List PathRule} {k : Nat} {g : GenLoc},
+    g ∈ extLocsFrom rules k rs ↔ ∃ j r, rs[j]? = some r ∧ g ∈ extLocs rules (k + j) r
+  | [], k, g => by simp [extLocsFrom]
+  | r :: rs, k, g => by
+    simp only [extLocsFrom, List.mem_append, mem_extLocsFrom (rs := rs)]
+    constructor
+    · rintro (h | ⟨j, r', hj, hg⟩)
+      · exact ⟨0, r, by simp, by simpa using h⟩
+      · exact ⟨j + 1, r', by simpa using hj, by rw [show k + (j + 1) = k + 1 + j by omega]; exact hg⟩
+    · rintro ⟨j, r', hj, hg⟩
+      cases j with
+      | zero => left; simp at hj; subst hj; simpa using hg
+      | succ j => right; exact ⟨j, r', by simpa using hj, by rw [show k + 1 + j = k + (j + 1) by omega]; exact hg⟩
+
+theorem mem_genLocs {rules : List PathRule} {g : GenLoc} :
+    g ∈ genLocs rules ↔ (∃ i r, rules[i]? = some r ∧ g ∈ extLocs rules i r) ∨
+      (g = ⟨false, ['/'], rules.length⟩ ∧ rules.any (fun r => r.path == ['/']) = false) := by
+  unfold genLocs
+  simp only [List.mem_append, mem_extLocsFrom, Nat.zero_add]
+  constructor
+  · rintro (h | h)
+    · exact Or.inl h
+    · right
+      by_cases hr : rules.any (fun r => r.path == ['/']) = true
+      · simp [hr] at h
+      · have hr' : rules.any (fun r => r.path == ['/']) = false := Bool.eq_false_iff.mpr hr
+        simp [hr'] at h; exact ⟨h, hr'⟩
+  · rintro (h | ⟨h, hr⟩)
+    · exact Or.inl h
+    · right; simp [hr, h]
+
+/-- every generated prefix (non-exact) location ends in `/`: a prefix rule `/p` is served by `location /p/`
+(and `location = /p`), never by `location /p` — so `/px` cannot reach it -/
+theorem nonexact_ends_slash {rules : List PathRule} {g : GenLoc} (hg : g ∈ genLocs rules) (hne : g.exact = false) :
+    endsSlash g.path = true := by
+  rcases mem_genLocs.mp hg with ⟨i, r, _, hx⟩ | ⟨rfl, _⟩
+  · unfold extLocs at hx
+    by_cases hc : (r.isPrefix && !endsSlash r.path) = true
+    · simp only [hc, ↓reduceIte] at hx
+      by_cases h2 : (hasExact rules r.path && hasPrefix rules (r.path ++ ['/'])) = true
+      · simp [h2] at hx
+      · simp only [h2, Bool.false_eq_true, ↓reduceIte, List.mem_append] at hx
+        rcases hx with hx | hx
+        · by_cases h3 : hasPrefix rules (r.path ++ ['/']) = true
+          · simp [h3] at hx
+          · simp [h3] at hx; subst hx; simp [endsSlash]
+        · by_cases h4 : hasExact rules r.path = true
+          · simp [h4] at hx
+          · simp [h4] at hx; subst hx; simp at hne
+    · have hc' : (r.isPrefix && !endsSlash r.path) = false := Bool.eq_false_iff.mpr hc
+      simp only [hc', Bool.false_eq_true, ↓reduceIte, List.mem_singleton] at hx
+      subst hx
+      simp only [Bool.not_eq_false'] at hne
+      simp only [hne, Bool.true_and, Bool.not_eq_false'] at hc'
+      exact hc'
+  · rfl
+
+/-- an exact rule always gets its own exact location -/
+theorem exact_rule_has_location {rules : List PathRule} {i : Nat} {p : List Char} (h : rules[i]? = some ⟨p, false⟩) :
+    (⟨true, p, i⟩ : GenLoc) ∈ genLocs rules :=
+  mem_genLocs.mpr (Or.inl ⟨i, ⟨p, false⟩, h, by simp [extLocs]⟩)
+
+/-- a prefix rule `/p` (no trailing slash) is reachable at the bare path `/p`: through its own `= /p` location, or
+through the exact rule's when an exact rule for `/p` exists (exact over prefix) -/
+theorem prefix_rule_bare_path {rules : List PathRule} {i : Nat} {p : List Char} (h : rules[i]? = some ⟨p, true⟩)
+    (hs : endsSlash p = false) :
+    (hasExact rules p = false ∧ (⟨true, p, i⟩ : GenLoc) ∈ genLocs rules) ∨
+    (hasExact rules p = true ∧ ∃ j, rules[j]? = some ⟨p, false⟩ ∧ (⟨true, p, j⟩ : GenLoc) ∈ genLocs rules) := by
+  cases he : hasExact rules p with
+  | false =>
+    left
+    refine ⟨rfl, mem_genLocs.mpr (Or.inl ⟨i, ⟨p, true⟩, h, ?_⟩)⟩
+    simp [extLocs, hs, he]
+  | true =>
+    right
+    refine ⟨rfl, ?_⟩
+    unfold hasExact at he
+    obtain ⟨r, hr, hp⟩ := List.any_eq_true.mp he
+    obtain ⟨j, hj⟩ := List.getElem?_of_mem hr
+    simp only [Bool.and_eq_true, Bool.not_eq_true', beq_iff_eq] at hp
+    have : r = ⟨p, false⟩ := by cases r; simp_all
+    subst this
+    exact ⟨j, hj, exact_rule_has_location hj⟩
+
+/-- … and in its subtree through `location /p/`, or through the `/p/` prefix rule's when such a rule exists -/
+theorem prefix_rule_subtree {rules : List PathRule} {i : Nat} {p : List Char} (h : rules[i]? = some ⟨p, true⟩)
+    (hs : endsSlash p = false) :
+    ∃ j, (⟨false, p ++ ['/'], j⟩ : GenLoc) ∈ genLocs rules ∧
+      ((j = i ∧ hasPrefix rules (p ++ ['/']) = false) ∨ rules[j]? = some ⟨p ++ ['/'], true⟩) := by
+  cases hp : hasPrefix rules (p ++ ['/']) with
+  | false =>
+    refine ⟨i, mem_genLocs.mpr (Or.inl ⟨i, ⟨p, true⟩, h, ?_⟩), Or.inl ⟨rfl, rfl⟩⟩
+    cases he : hasExact rules p <;> simp [extLocs, hs, hp, he]
+  | true =>
+    unfold hasPrefix at hp
+    obtain ⟨r, hr, hq⟩ := List.any_eq_true.mp hp
+    obtain ⟨j, hj⟩ := List.getElem?_of_mem hr
+    simp only [Bool.and_eq_true, beq_iff_eq] at hq
+    have : r = ⟨p ++ ['/'], true⟩ := by cases r; simp_all
+    subst this
+    refine ⟨j, mem_genLocs.mpr (Or.inl ⟨j, _, hj, ?_⟩), Or.inr hj⟩
+    have : endsSlash (p ++ ['/']) = true := by simp [endsSlash]
+    simp [extLocs, this]
+
+/-! ### NGINX selection over a location list -/
+
+/-- exact over prefix: if an exact location for the request path exists, NGINX takes (the first) one -/
+theorem select_exact_first {locs : List Loc} {p : List Char} {l : Loc}
+    (h : locs.find? (fun l => l.exact && l.path == p) = some l) : ∃ l', selectLoc locs p = .loc l' ∧ l' = l := by
+  unfold selectLoc; rw [h]; exact ⟨l, rfl, rfl⟩
+
+/-- when no location equals the request path (and no auto-redirect applies), the longest prefix location wins -/
+theorem select_longest_prefix {locs : List Loc} {p : List Char}
+    (h1 : locs.find? (fun l => l.exact && l.path == p) = none)
+    (h2 : locs.find? (fun l => !l.exact && l.path == p) = none)
+    (h3 : locs.find? (fun l => !l.exact && l.passes && l.path == p ++ ['/']) = none) :
+    (∀ w, bestPrefix p locs = some w → selectLoc locs p = .loc w ∧ w ∈ locs ∧ w.exact = false ∧ w.path <+: p ∧
+        ∀ l ∈ locs, l.exact = false → l.path <+: p → l.path.length ≤ w.path.length) ∧
+    (bestPrefix p locs = none → selectLoc locs p = .none ∧ ∀ l ∈ locs, l.exact = false → ¬ l.path <+: p) := by
+  constructor
+  · intro w hw
+    obtain ⟨a, b, c, d⟩ := bestPrefix_some hw
+    refine ⟨?_, a, b, c, d⟩
+    unfold selectLoc; rw [h1, h2, h3, hw]
+  · intro hn
+    refine ⟨by unfold selectLoc; rw [h1, h2, h3, hn], ?_⟩
+    intro l hl he hp
+    have := bestPrefix_none hn l hl
+    simp [he, List.isPrefixOf_iff_prefix.mpr hp] at this
+
+/-- whatever location NGINX selects either equals the request path exactly or is a prefix location that is a prefix
+of it -/
+theorem select_sound {locs : List Loc} {q : List Char} {l : Loc} (h : selectLoc locs q = .loc l) :
+    l ∈ locs ∧ ((l.exact = true ∧ l.path = q) ∨ (l.exact = false ∧ l.path <+: q)) := by
+  unfold selectLoc at h
+  cases h1 : locs.find? (fun l => l.exact && l.path == q) with
+  | some a =>
+    rw [h1] at h; simp only [LocChoice.loc.injEq] at h; subst h
+    have := List.find?_some h1
+    simp only [Bool.and_eq_true, beq_iff_eq] at this
+    exact ⟨List.mem_of_find?_eq_some h1, Or.inl this⟩
+  | none =>
+    rw [h1] at h
+    cases h2 : locs.find? (fun l => !l.exact && l.path == q) with
+    | some a =>
+      rw [h2] at h; simp only [LocChoice.loc.injEq] at h; subst h
+      have := List.find?_some h2
+      simp only [Bool.and_eq_true, Bool.not_eq_true', beq_iff_eq] at this
+      exact ⟨List.mem_of_find?_eq_some h2, Or.inr ⟨this.1, by rw [this.2]; exact List.prefix_refl _⟩⟩
+    | none =>
+      rw [h2] at h
+      cases h3 : locs.find? (fun l => !l.exact && l.passes && l.path == q ++ ['/']) with
+      | some a => rw [h3] at h; cases h
+      | none =>
+        rw [h3] at h
+        cases h4 : bestPrefix q locs with
+        | none => rw [h4] at h; cases h
+        | some w =>
+          rw [h4] at h; simp only [LocChoice.loc.injEq] at h; subst h
+          obtain ⟨a, b, c, _⟩ := bestPrefix_some h4
+          exact ⟨a, Or.inr ⟨b, c⟩⟩
+
+/-- `/p/` is a prefix of the request path exactly when the request is in the subtree of `/p`: `/p/x` yes, `/px` no -/
+theorem slash_prefix_iff (p q : List Char) : (p ++ ['/']) <+: q ↔ ∃ rest, q = p ++ '/' :: rest := by
+  constructor
+  · rintro ⟨t, ht⟩; exact ⟨t, by rw [← ht]; simp⟩
+  · rintro ⟨rest, rfl⟩; exact ⟨rest, by simp⟩
+
+theorem not_subtree_of_other_char (p rest : List Char) (c : Char) (hc : c ≠ '/') : ¬ (p ++ ['/']) <+: (p ++ c :: rest) := by
+  rintro ⟨t, ht⟩
+  have : (p ++ ['/']) ++ t = p ++ ('/' :: t) := by simp
+  rw [this] at ht
+  have := List.append_cancel_left ht
+  simp at this
+  exact hc this.1.symm
 
 end NGF.Locations
